@@ -49,7 +49,10 @@ struct C05 : RBase {
     int pid = p.fault_points;
     int n = (int)r.range(6, 20);
     for (int i = 0; i < n; ++i) {
-      switch (r.below(34)) {
+      switch (r.below(35)) {
+      case 34: // an element written through the iterator and read again (copied, printed) in the same iteration
+        B.push_back(let("tb", var("ta", "tabint"))); B.push_back(forall("zr", var("tb", "tabint"), {let("zr", r.chance(0.5) ? bin("+", var("ia"), ilit(1)) : var("ia")), let("iw", var("zr")), print({slit("zr="), var("zr"), slit(" iw="), var("iw"), slit(" "), json{{"k", "bi"}, {"f", "isnull"}, {"args", json::array({var("zr")})}, {"t", "bool"}}})}));
+        B.push_back(forall("zt", var("ts0", "tabstr"), {let("zt", r.chance(0.5) ? bin("+", var("sa", "str"), slit("."), "str") : slit("k")), let("sw", var("zt", "str")), print({slit("zt="), var("zt", "str"), var("sw", "str")})})); B.push_back(print({slit("ts0="), mth("at", var("ts0", "tabstr"), {ilit(0)}, "str"), mth("at", var("ts0", "tabstr"), {ilit(1)}, "str")})); break;
       case 32: // the same function called while its own arguments are evaluated, repeatedly
         B.push_back(forl("r9", ilit(1), ilit(3), {print({call("cat2", {var("sa", "str"), call("cat2", {slit("c"), slit("d")}, "str")}, "str"), slit(" "), call("cat2", {call("cat2", {slit("e"), var("sb", "str")}, "str"), slit("f")}, "str")})})); break;
       case 33: B.push_back(print({slit("sub:"), json{{"k", "bi"}, {"f", "substr"}, {"args", json::array({var("sa", "str"), ilit(r.pick(std::vector<long>{3, 9, 50}))})}, {"t", "str"}}, slit("|"), json{{"k", "bi"}, {"f", "substr"}, {"args", json::array({slit("world"), ilit(r.pick(std::vector<long>{2, 5, 9})), ilit(r.range(0, 2))})}, {"t", "str"}}})); break;
